@@ -435,6 +435,7 @@ func profileFor(prop string) Profile {
 		p.Stones = 0.5
 	case "C02", "C07":
 		p.TillShallow = true
+		p.AutoProb = 0.12 // automatic management too (fertiliser applied by demand, automatic irrigation)
 		p.HeavyRain = 0.6
 		p.Stones = 0.4
 		p.MinLayers = 2
